@@ -562,26 +562,33 @@ open Barril.Ctor
 
 /-! ### row predicates for the generated table theorems -/
 
-/-- the unit's default category resolves: `GetDefaultCategory` finds the row under its symbol and
-answers a non-empty name, and that name is a registered category of the row's own quantity type
-(which is what makes `Quantity(category, unit)` succeed: `Ctor.newQuantity_of_row`) -/
-def UnitRow.defaultCatOk (db : Db) (r : UnitRow) : Bool :=
-  match rowDefaultCategory db r with
-  | Option.none => false
-  | some c =>
-    c != 0
-    && db.unitBySym r.sym == some r
-    && (match db.catByName c with
-        | some ci => ci.qtype == r.qtype
-        | Option.none => false)
+/-- `Db.catByName` on the bare list, written with `Nat.beq` and `bif` so that `decide +kernel` over
+1500 rows stays cheap (`Ctor.fastCat_eq`: it is the same function) -/
+def fastCat (c : Sym) : List CatRow → Option CatRow
+  | [] => Option.none
+  | x :: xs => bif Nat.beq x.name c then some x else fastCat c xs
 
-/-- the category is found under its name, and its default unit is a registered unit of the
-category's quantity type -/
-def CatRow.defaultUnitOk (db : Db) (c : CatRow) : Bool :=
-  db.catByName c.name == some c
-  && (match db.unitBySym c.defaultUnit with
-      | some r => r.qtype == c.qtype
+/-- `Db.unitBySym` on the bare list (`Ctor.fastUnit_eq`) -/
+def fastUnit (u : Sym) : List UnitRow → Option UnitRow
+  | [] => Option.none
+  | x :: xs => bif Nat.beq x.sym u then some x else fastUnit u xs
+
+/-- the row's default category — its own `default_category` entry, else its quantity type — is a
+non-empty name of a registered category whose quantity type is the row's.  (That is what makes
+`GetDefaultCategory(unit)` resolve and `Quantity(category, unit)` succeed:
+`Ctor.defaultCatOk_spec`, `Ctor.newQuantity_of_row`.) -/
+def UnitRow.defaultCatOk (db : Db) (r : UnitRow) : Bool :=
+  let c := bif Nat.beq r.defaultCat 0 then r.qtype else r.defaultCat
+  !(Nat.beq c 0)
+  && (match fastCat c db.cats with
+      | some ci => Nat.beq ci.qtype r.qtype
       | Option.none => false)
+
+/-- the category's default unit is a registered unit of the category's quantity type -/
+def CatRow.defaultUnitOk (db : Db) (c : CatRow) : Bool :=
+  match fastUnit c.defaultUnit db.units with
+  | some r => Nat.beq r.qtype c.qtype
+  | Option.none => false
 
 /-- the unit symbol needs no escaping inside a `'…'` literal -/
 def UnitRow.symPlain (r : UnitRow) : Bool := litOk r.sym
